@@ -157,6 +157,38 @@ def handle1 (req : Json) : Except String Json := do
           ofList (fun (q : Rat × Rat) => Json.arr #[ratToJson q.1, ratToJson q.2]) e.2]) d
     pure (obj [("model", exc out (rawContrast r sel1 sel2 pc x span strX)),
                ("spec", exc out (rawContrastS r sel1 sel2 pc x span strX))])
+  | "plotc" =>
+    let r ← parseResult (← field req "res")
+    let parseSel := fun (j : Json) => do
+      (← arr j).mapM (fun (e : Json) => do
+        let tb ← match (← str (← field e "tbl")) with
+          | "env" => pure Tbl.env | "lrn" => pure Tbl.lrn | "val" => pure Tbl.val
+          | s => throw s!"bad table {s}"
+        let jj ← opt nat (fieldD e "j" Json.null)
+        let v ← int (← field e "v")
+        pure (tb, jj, v))
+    let sel1 ← (← arr (← field req "sels1")).mapM parseSel
+    let sel2 ← (← arr (← field req "sels2")).mapM parseSel
+    let strX ← bool (fieldD req "strx" (Json.bool true))
+    let pc ← parseCols (← field req "p")
+    let x ← parseX (← field req "x")
+    let span ← opt nat (fieldD req "span" Json.null)
+    let mode ← match (← str (← field req "mode")) with
+      | "diff" => pure CMode.diff | "prob" => pure CMode.prob | s => throw s!"bad mode {s}"
+    let ci ← match (← str (← field req "ci")) with
+      | "none" => pure (none : Option CiFn) | "range" => pure (some rangeCi) | s => throw s!"bad ci {s}"
+    let errevery ← opt nat (fieldD req "errevery" Json.null)
+    let kind ← match (← str (← field req "xkind")) with
+      | "index" => pure XKind.index | "isL" => pure XKind.isL | "other" => pure XKind.other | s => throw s!"bad xkind {s}"
+    let xord ← opt (fun j => do (← arr j).mapM (fun (t : Json) => do
+      match t with
+      | .arr #[a, b] => pure ((← intList a, ← intList b) : Key × Key)
+      | _ => throw "bad x key")) (fieldD req "xord" Json.null)
+    let out := fun (d : List (List CPoint)) =>
+      ofList (fun (l : List CPoint) => ofList (fun (p : CPoint) =>
+        Json.arr #[ofList ofInt p.x.1, ofList ofInt p.x.2, ratToJson p.y, ratToJson p.lo, ratToJson p.hi]) l) d
+    pure (obj [("model", exc out (plotContrast r sel1 sel2 pc x span strX xord mode ci errevery kind)),
+               ("spec", exc out (plotContrastS r sel1 sel2 pc x span strX xord mode ci errevery kind))])
   | "complete" =>
     let r ← parseResult (← field req "res")
     let lc ← parseCols (← field req "l")
